@@ -30,7 +30,7 @@ def history(rng, nP, length):
             ops.append({'kind': kind, 'vals': vals, 'subset': sub, 'perm': rng.permutation(nP).tolist()})
             continue
         kind = ['list', 'tuple', 'array', 'pairs', 'dict-name', 'dict-model-symbol', 'dict-foreign-symbol', 'dict-mixed',
-                'bad-name-pair', 'bad-key', 'wrong-length', 'too-many'][int(rng.randint(12))] if k else ['list', 'pairs', 'dict-name'][int(rng.randint(3))]
+                'bad-name-pair', 'bad-key', 'wrong-length', 'too-many', 'bad-time-pair', 'bad-time-key'][int(rng.randint(14))] if k else ['list', 'pairs', 'dict-name'][int(rng.randint(3))]
         vals = [round(float(v), 3) for v in rng.uniform(0.1, 9.0, size=nP)]
         sub = sorted(rng.choice(nP, size=int(rng.randint(1, nP + 1)), replace=False).tolist())
         perm = rng.permutation(nP).tolist()
@@ -67,6 +67,13 @@ def run_history(nP, ops):
             reject = True
         elif kind == 'bad-key':
             inp = {names[sub[0]]: vals[0], 'zeta': 1.0} if nP >= 2 else {'zeta': 1.0}
+            reject = True
+        elif kind == 'bad-time-pair':
+            # 't' is a key of the model's parameter dictionary (the time symbol is filed there) but it is not a parameter
+            inp = [((names[j] if j != perm[-1] else 't'), vals[j]) for j in perm]
+            reject = True
+        elif kind == 'bad-time-key':
+            inp = {names[sub[0]]: vals[0], ('t' if k % 2 else sympy.Symbol('t')): 1.0}
             reject = True
         elif kind == 'wrong-length':
             inp = list(vals) + [1.0]
@@ -116,10 +123,11 @@ def run(tier='quick', seed=0):
     evals, failures, samples, distinct = 0, [], [], set()
     # fixed histories, every seed: a rejected dict that also carries a valid name, followed by a partial update that does not mention
     # that name (nothing of a rejected input may surface later), in three key styles
-    for fk, kind2 in enumerate(('dict-name', 'dict-model-symbol', 'dict-foreign-symbol')):
-        nP = 2 + fk
+    for fk, (badkind, kind2) in enumerate((('bad-key', 'dict-name'), ('bad-key', 'dict-model-symbol'), ('bad-key', 'dict-foreign-symbol'),
+                                           ('bad-time-pair', 'dict-name'), ('bad-time-key', 'dict-name'), ('bad-time-key', 'list'))):
+        nP = 2 + fk % 3
         ops = [{'kind': 'pairs', 'vals': [6.0 + i for i in range(nP)], 'subset': list(range(nP)), 'perm': list(range(nP))[::-1]},
-               {'kind': 'bad-key', 'vals': [2.5] * nP, 'subset': [0], 'perm': list(range(nP))},
+               {'kind': badkind, 'vals': [2.5] * nP, 'subset': [0], 'perm': list(range(nP))},
                {'kind': kind2, 'vals': [3.25] * nP, 'subset': [nP - 1], 'perm': list(range(nP))}]
         try:
             bad = run_history(nP, ops)
@@ -128,7 +136,7 @@ def run(tier='quick', seed=0):
         evals += 1
         distinct.add((nP, tuple(o['kind'] for o in ops)))
         if bad:
-            failures.append({'key': 'rejected-then-partial %s' % kind2, 'case': {'nP': nP, 'ops': ops}, 'observed': bad[:3]})
+            failures.append({'key': 'rejected-then-partial %s/%s' % (badkind, kind2), 'case': {'nP': nP, 'ops': ops}, 'observed': bad[:3]})
     for k in range(n):
         nP = int(rng.randint(1, 6)) if k % 4 else 2
         if nP == 1:
@@ -146,7 +154,7 @@ def run(tier='quick', seed=0):
             samples.append({'nP': nP, 'kinds': [o['kind'] for o in ops]})
     return {'evaluations': evals, 'distinct_nontrivial': len(distinct), 'failures': failures, 'samples': samples,
             'rule': 'seeded random histories (2-8 assignments, 2-5 parameters) mixing ordered list/tuple/array, permuted pairs, full and partial dicts keyed by name, '
-                    'by the model symbol, by a same-named foreign sympy.Symbol and mixtures, and rejected inputs (unknown name, wrong length, too many keys); after every '
+                    'by the model symbol, by a same-named foreign sympy.Symbol and mixtures, and rejected inputs (unknown name, the name t of the time symbol, wrong length, too many keys); after every '
                     'step _paramValue and ode(x,t) are compared with a by-name reference; distinct by (number of parameters, sequence of formats)',
             'bound': '%d histories of at most 8 assignments' % n}
 
